@@ -37,6 +37,17 @@ def main():
     it, w = get_interp("/repo")
     tu = it.get_module("jax.tree_util")
     dm = {k: A.Arr((1,), [v], "int") for k, v in d.items()}
+    # ravel_pytree: leaves raveled in sorted-key order; unravel is its inverse
+    from jax.flatten_util import ravel_pytree
+
+    dr = {(1, 0): jnp.arange(6.0).reshape(2, 3), (0, 1): jnp.arange(10.0, 12.0), (0, 0): jnp.arange(20.0, 24.0).reshape(2, 2)}
+    flat, unravel = ravel_pytree(dr)
+    fu = it.get_module("jax.flatten_util")
+    drm = {k: A.Arr(tuple(v.shape), [int(e) for e in np.asarray(v).reshape(-1)], "float") for k, v in dr.items()}
+    mflat, munravel = it.getattr(fu, "ravel_pytree")(drm)
+    back = munravel(mflat)
+    check("model: ravel_pytree packs in sorted-key order like jax", [int(e) for e in mflat.elems] == [int(e) for e in np.asarray(flat)])
+    check("model: unravel(ravel_pytree(t)) == t with sorted keys", list(back.keys()) == list(unravel(flat).keys()) and all([int(e) for e in back[k].elems] == [int(e) for e in np.asarray(dr[k]).reshape(-1)] and tuple(back[k].shape) == tuple(dr[k].shape) for k in dr))
     check("model: tree_leaves of a dict agrees with jax", [int(x.elems[0]) for x in it.getattr(tu, "tree_leaves")(dm)] == [int(x) for x in jax.tree_util.tree_leaves(d)])
 
     # A8: eigh is covariant under signed permutations: eigvals(h C h^T) = eigvals(C); eigvecs(h C h^T) = h eigvecs(C) up to sign
